@@ -34,6 +34,7 @@ CHECKS['C02'] = dict(
         U('inpkg', 'TestVerifC02_Long', q(3200, 16), q(32000, 16, cap=1500), pkg='algo'),
         U('inpkg', 'FuzzVerifC02_Witness', None, q(fuzz=120), pkg='algo'),
         U('inpkg', 'TestVerifC02_WitnessInScope', q(32000, 16), q(640000, 16, cap=1500), pkg='src'),
+        U('proc', 'TestVerifC02_ProcLongQuery', q(192, 16, cap=600), q(1600, 16, cap=2400), needs_fzf=True),
         U('inpkg', 'TestVerifC02_WitnessAcrossCancelledSearches', q(640, 16, cap=900), q(12800, 16, cap=3000, race=True), pkg='src'),
     ])
 
@@ -102,6 +103,7 @@ CHECKS['C04'] = dict(
         U('inpkg', 'TestVerifC04_TiebreakMeaning', q(), q(), pkg='src'),
         U('inpkg', 'TestVerifC04_TiebreakKeys', q(48000, 16), q(960000, 16, cap=1800), pkg='src'),
         U('inpkg', 'TestVerifC04_ScanMerge', q(8000, 16), q(160000, 16, cap=1800), pkg='src'),
+        U('inpkg', 'TestVerifC04_OrderAcrossQueryHistory', q(3200, 16, cap=600), q(64000, 16, cap=1800), pkg='src'),
     ])
 
 CHECKS['C05']['units'] += [
@@ -156,6 +158,7 @@ CHECKS['C10'] = dict(
         U('inpkg', 'TestVerifC10_RangesRandom', q(80000, 16), q(1600000, 16, cap=1800), pkg='src'),
         U('inpkg', 'TestVerifC10_NthMatch', q(80000, 16), q(1600000, 16, cap=1800), pkg='src'),
         U('proc', 'TestVerifC10_ProcChangeNth', q(320, 16, cap=900), q(6400, 16, cap=3000), needs_fzf=True),
+        U('proc', 'TestVerifC10_ProcAcceptNth', q(3200, 16, cap=600), q(64000, 16, cap=2400), needs_fzf=True),
         U('inpkg', 'FuzzVerifC10_Tokenize', None, q(fuzz=60), pkg='src'),
         U('inpkg', 'FuzzVerifC10_Ranges', None, q(fuzz=60), pkg='src'),
         U('inpkg', 'FuzzVerifC10_NthMatch', None, q(fuzz=60), pkg='src'),
@@ -222,6 +225,7 @@ CHECKS['C17'] = dict(
         U('inpkg', 'TestVerifC17_EnvPrecedence', q(8000, 8), q(160000, 16, cap=1800), pkg='src'),
         U('inpkg', 'TestVerifC17_SubParsers', q(64000, 16), q(1600000, 16, cap=1800), pkg='src'),
         U('inpkg', 'TestVerifC17_AdaptiveHeightRule', q(32000, 16), q(640000, 16, cap=1800), pkg='src'),
+        U('inpkg', 'TestVerifC17_OptionalValueAttached', q(16000, 16), q(320000, 16, cap=1800), pkg='src'),
         U('inpkg', 'FuzzVerifC17_Argv', None, q(fuzz=120), pkg='src'),
         U('inpkg', 'FuzzVerifC17_Bind', None, q(fuzz=90), pkg='src'),
         U('inpkg', 'FuzzVerifC17_SubParsers', None, q(fuzz=60), pkg='src'),
@@ -342,4 +346,5 @@ CHECKS['C20'] = dict(
     units=[
         U('proc', 'TestVerifC20_Sessions', q(160, 16, cap=900), q(2400, 16, cap=3000), needs_fzf=True),
         U('proc', 'TestVerifC20_SupersededAtStart', q(160, 16, cap=900), q(2400, 16, cap=3000), needs_fzf=True),
+        U('proc', 'TestVerifC20_ScrolledWhileStreaming', q(160, 16, cap=900), q(2400, 16, cap=3000), needs_fzf=True),
     ])
